@@ -14,6 +14,7 @@ From AM Require Import Rust.Ast Rust.Syntax Rust.Script Gen.HotReloading Gen.Dep
   Proofs.AnsInv Proofs.AnsR Proofs.AnsC Proofs.AnsWork Proofs.Dfs Tie.Answers Tie.Graph.
 Require AM.Ref.Answers AM.Proofs.AnsBridge.
 From AM Require Import Tie.Erasure.
+From AM Require Gen.Entry Tie.Entry.
 Import ListNotations.
 
 (* 1. The code has the protocol the theorems are about. *)
@@ -122,3 +123,11 @@ Proof. exact AM.Proofs.AnsBridge.exec_quiescent_means_all_returned. Qed.
 
 Example C08_nonvacuous : stepsN 3 init init /\ (exists i, i < 3 /\ cs init i <> CDone).
 Proof. split; [constructor|]. exists 0. split; [auto|discriminate]. Qed.
+
+(* the reloader never runs a user destructor while it holds an asset's write lock: under the lock
+   `write` swaps, bumps the id and sets the flag, nothing else; the replaced value is dropped after
+   the lock is released (a destructor that reads its own handle cannot block the reloader, hence
+   cannot block hot_reload) *)
+Theorem C08_code_write_drops_nothing_under_the_lock :
+  AM.Tie.Entry.write_locked_block_wf AM.Gen.Entry.UntypedEntry_write = true.
+Proof. exact AM.Tie.Entry.write_drops_nothing_under_the_lock. Qed.
